@@ -391,9 +391,21 @@ def oracle_stars(ctx, E, keys, stars, index, what, replay, closed=True, prefix='
                 return
 
 
-def oracle_lookup(ctx, E, S, keys, what, replay, rng):
-    """stateindex / starindex / indexdict / __contains__ are consistent"""
+def oracle_lookup(ctx, E, S, keys, what, replay, rng, probes=()):
+    """stateindex / starindex / indexdict / __contains__ are consistent; `probes`: extra keys that must be reported
+    as members exactly when they are states of S (e.g. the states of a sum, queried on the operand)"""
     crystal, stars = _onsager()
+    if len(S.indexdict) != len(S.states):
+        ctx.violation('lookup:indexdict-size', '%s: indexdict has %d entries for %d states' % (what, len(S.indexdict), len(S.states)), replay)
+        return
+    ks = set(keys)
+    for k in probes:
+        if k in ks: continue
+        Q = stars.PairState.fromcrys_latt(E.crys, E.chem, (k[0], k[1]), np.array(k[2:2 + E.dim], dtype=int))
+        got = (S.stateindex(Q), S.starindex(Q), Q in S)
+        if got != (None, None, False):
+            ctx.violation('lookup:phantom', '%s: non-member %s reported as %r' % (what, k, got), replay)
+            return
     for xi, PS in enumerate(S.states):
         si = int(S.index[xi])
         # query with a fresh object (dx deliberately absent from equality)
@@ -431,6 +443,54 @@ def oracle_geometry(ctx, E, S, keys, what, replay):
             ctx.violation('order:not-sorted', '%s: states not ordered by |dx|^2 at %s' % (what, k), replay)
             return
         last = max(last, x2)
+
+
+# ---------------------------------------------------------------- operands must not be mutated or aliased
+def snapshot(S):
+    """value fingerprint of everything observable on a StarSet"""
+    keys = [ps_key(x) for x in S.states]
+    return dict(Nshells=int(S.Nshells), Nstates=int(S.Nstates), Nstars=int(S.Nstars), states=keys,
+                stars=[[int(x) for x in st] for st in S.stars], index=[int(x) for x in S.index],
+                indexdict=sorted((ps_key(k), (int(v[0]), int(v[1]))) for k, v in S.indexdict.items()),
+                jumplist=[ps_key(x) for x in S.jumplist], jni=[list(map(int, l)) for l in S.jumpnetwork_index])
+
+
+def shares_storage(R, S):
+    """names of mutable containers that result R shares with operand S"""
+    out = []
+    if R is S: return ['self']
+    if R.states is S.states: out.append('states')
+    if R.stars is S.stars or any(a is b for a in R.stars for b in S.stars): out.append('stars')
+    if R.indexdict is S.indexdict: out.append('indexdict')
+    if R.index is S.index or (len(R.index) and len(S.index) and np.shares_memory(R.index, S.index)): out.append('index')
+    if R.jumplist is S.jumplist: out.append('jumplist')
+    if R.jumpnetwork_index is S.jumpnetwork_index: out.append('jumpnetwork_index')
+    return out
+
+
+def check_operands(ctx, B, E, opname, operands, result, what, replay):
+    """after a binary operation: every operand still has its value (snapshot), is internally consistent (lookups,
+    also probed with the states of the result), shares no storage with the result, and still equals the model's
+    generate(N, origin).  operands: list of (label, StarSet, snapshot_before, N, origin)"""
+    rkeys = [ps_key(x) for x in result.states] if (result is not None and not isinstance(result, Exception)) else []
+    for label, S, before, N, o in operands:
+        w = '%s [operand %s after %s]' % (what, label, opname)
+        after = snapshot(S)
+        if after != before:
+            diff = [k for k in before if before[k] != after[k]]
+            ctx.violation('operand-mutated:%s:%s' % (opname, '+'.join(diff)), '%s: %s changed by the operation' % (w, diff),
+                          dict(replay, operand=label, changed=diff))
+            continue
+        if rkeys and result is not S:
+            sh = shares_storage(result, S)
+            if sh:
+                ctx.violation('operand-aliased:%s:%s' % (opname, '+'.join(sh)), '%s: result shares %s with the operand' % (w, sh),
+                              dict(replay, operand=label, shared=sh))
+                continue
+        keys = after['states']
+        oracle_lookup(ctx, E, S, keys, w, dict(replay, operand=label), ctx.rng, probes=rkeys)
+        if B is not None and N is not None:
+            B.ask('gen %d %d' % (N, int(o)), compare_starset(ctx, 'operand', '', w, S, dict(replay, operand=label)))
 
 
 # ---------------------------------------------------------------- sessions
@@ -618,6 +678,7 @@ def add_case(ctx, B, E, name, classes, N1, o1, N2, o2, kind):
         return
     J = [s for c in classes for s in c]
     closed = is_G_closed(E, J)
+    snapA, snapB = snapshot(A), snapshot(Bs)
     try:
         S = A + Bs
     except Exception as e:
@@ -645,9 +706,62 @@ def add_case(ctx, B, E, name, classes, N1, o1, N2, o2, kind):
         oracle_lookup(ctx, E, S, keys, what, replay, ctx.rng)
         if closed: check_impl_output(ctx, B, E, S, what, replay)
     B.ask('add %d %d %d %d' % (N1, int(o1), N2, int(o2)), compare_starset(ctx, 'add', name, what, S, replay))
+    check_operands(ctx, B, E, 'add', [('left', A, snapA, N1, o1), ('right', Bs, snapB, N2, o2)], S, what, replay)
+    inplace_and_copy_case(ctx, B, E, name, classes, N1, o1, N2, o2, kind, what, replay, closed)
     ctx.case(('add', name, E.chem, tuple(map(tuple, classes)), N1, o1, N2, o2), nontrivial=not isinstance(S, Exception),
              sample=None)
     ctx.count('add:' + kind)
+
+
+def inplace_and_copy_case(ctx, B, E, name, classes, N1, o1, N2, o2, kind, what, replay, closed):
+    """`a += b` (right operand untouched, result = reachable set of N1+N2), and copy() followed by mutation of the copy
+    (the original keeps its value and its lookups), in both directions"""
+    J = [s for c in classes for s in c]
+    try:
+        A = make_starset(E, classes, N1, o1)
+        Bs = make_starset(E, classes, N2, o2)
+        snapB = snapshot(Bs)
+        A += Bs
+    except Exception as e:
+        ctx.violation('iadd:raises:' + type(e).__name__, '%s [a += b] raised %r' % (what, e), replay)
+        return
+    keys = [ps_key(x) for x in A.states]
+    if N1 >= 1 and N2 >= 1:
+        want = reach(E, J, N1 + N2, o1)
+        if set(keys) != want or len(keys) != len(set(keys)) or A.Nshells != N1 + N2:
+            ctx.violation('iadd:states-differ', '%s [a += b]: Nshells %d, missing %s, extra %s'
+                          % (what, A.Nshells, sorted(want - set(keys))[:3], sorted(set(keys) - want)[:3]), replay)
+        elif closed and len(keys):
+            oracle_stars(ctx, E, keys, [list(map(int, st)) for st in A.stars], A.index, what + ' [a += b]', replay,
+                         closed=True, prefix='iadd')
+    oracle_lookup(ctx, E, A, keys, what + ' [a += b]', replay, ctx.rng)
+    check_operands(ctx, B, E, 'iadd', [('right', Bs, snapB, N2, o2)], A, what, replay)
+    # copy, then mutate the copy in several ways; the original must be unaffected — and vice versa
+    for mut in ('iadd', 'generate', 'diffgenerate'):
+        try:
+            O = make_starset(E, classes, N1, o1)
+            snapO = snapshot(O)
+            Cp = O.copy()
+            if snapshot(Cp) != snapO:
+                ctx.violation('copy:differs', '%s: copy() differs from the original' % what, replay); return
+            sh = shares_storage(Cp, O)
+            if sh:
+                ctx.violation('operand-aliased:copy:%s' % '+'.join(sh), '%s: copy() shares %s with the original' % (what, sh),
+                              dict(replay, shared=sh)); return
+            if mut == 'iadd': Cp += Bs
+            elif mut == 'generate': Cp.generate(N1 + 1, originstates=o1)
+            else:
+                if N1 < 1 or N2 < 1: continue
+                Cp.diffgenerate(O, Bs)
+        except Exception as e:
+            ctx.violation('copy:raises:' + type(e).__name__, '%s: copy() then %s raised %r' % (what, mut, e), replay)
+            return
+        check_operands(ctx, None, E, 'copy-then-' + mut, [('original', O, snapO, N1, o1)], Cp, what, replay)
+        ckeys = [ps_key(x) for x in Cp.states]
+        oracle_lookup(ctx, E, Cp, ckeys, what + ' [copy then %s]' % mut, replay, ctx.rng, probes=snapO['states'])
+    E0 = make_starset(E, classes, N1, o1).copy(empty=True)
+    if E0.Nshells != 0 or len(E0.states) != 0:
+        ctx.violation('copy:empty', '%s: copy(empty=True) is not empty' % what, replay)
 
 
 def diff_case(ctx, B, E, name, classes, N1, o1, N2, o2, kind):
@@ -664,6 +778,7 @@ def diff_case(ctx, B, E, name, classes, N1, o1, N2, o2, kind):
         ctx.violation('generate:raises:' + type(e).__name__, '%s: StarSet construction raised %r' % (what, e), replay)
         return
     J = [s for c in classes for s in c]
+    snapA, snapB = snapshot(A), snapshot(Bs)
     try:
         D.diffgenerate(A, Bs)
         S = D
@@ -684,6 +799,7 @@ def diff_case(ctx, B, E, name, classes, N1, o1, N2, o2, kind):
         oracle_geometry(ctx, E, S, keys, what, replay)
         check_impl_output(ctx, B, E, S, what, replay)
     B.ask('diff %d %d %d %d' % (N1, int(o1), N2, int(o2)), compare_starset(ctx, 'diff', name, what, S, replay))
+    check_operands(ctx, B, E, 'diffgenerate', [('S1', A, snapA, N1, o1), ('S2', Bs, snapB, N2, o2)], S, what, replay)
     ctx.case(('diff', name, E.chem, tuple(map(tuple, classes)), N1, o1, N2, o2), nontrivial=not isinstance(S, Exception))
     ctx.count('diff:' + kind)
 
